@@ -1,6 +1,62 @@
-"""C05 - re-mastering is a fixpoint (DESIGN.md section 4): MASTER-ENUM histories + growth chains with the master.oracle_fixpoint oracle."""
-from mc import master, ops, oracles
-from mc.props import _std
+"""C05 - Re-mastering is a fixpoint (DESIGN.md section 4): MASTER-ENUM histories + growth chains + El Torito / hybrid histories
+with the three-generation differential oracle."""
+import itertools
 
-_std.install(globals(), 'C05', 'model_checking', [master.oracle_fixpoint], _std.default_bounds(),
-             ['virtual clock advanced between generations; only the volume modification dates are masked'] + ['alphabet sigma1 of mc/ops.py and the depth bounds listed in the evidence'])
+from mc import master, ops, oracles
+from mc.framework import Result
+from mc.props import _std, c12
+
+
+def hybrid_cases(tier):
+    geos = [(32, 64), (1, 1), (8, 4), (63, 255)] if tier == 'thorough' else [(32, 64), (8, 4)]
+    cfgs = [ops.mk(1), ops.mk(3, joliet=3, rr='1.09'), ops.mk(3, udf=True)] if tier == 'thorough' else [ops.mk(1), ops.mk(3, joliet=3, rr='1.09')]
+    for cfg in cfgs:
+        for mode in ('plain', 'efi', 'efimac'):
+            for (s, h) in geos:
+                for po in (0, 64):
+                    for pe in (1, 4):
+                        hyb = {'geometry_sectors': s, 'geometry_heads': h, 'part_offset': po, 'part_entry': pe, 'mbr_id': 0x1234abcd}
+                        steps, base, hy = c12.history(cfg, mode, hyb=hyb)
+                        yield {'extra': True, 'cfg': cfg, 'steps': steps}
+            for sizes in itertools.permutations(('c5000', 'c9000', 'c2049'), 2):
+                if mode != 'plain':
+                    steps, base, hy = c12.history(cfg, mode, sizes=sizes, hyb={})
+                    yield {'extra': True, 'cfg': cfg, 'steps': steps}
+
+
+def extra_tasks(tier):
+    cases = list(hybrid_cases(tier))
+    return [{'extra': True, 'cases': cases[i::16]} for i in range(16)]
+
+
+def extra_run(task):
+    res = Result()
+    for case in task['cases']:
+        status, viols, info = master.evaluate(case, [master.oracle_fixpoint], res)
+        res.count('hybrid_histories')
+        if status in ('refused', 'crash'):
+            res.count('hybrid_refused')
+            continue
+        for v in viols:
+            res.violation(v['clause'], v['cls'], v['msg'], case)
+    return res
+
+
+def check_extra(case):
+    status, viols, info = master.evaluate(case, [master.oracle_fixpoint])
+    return viols
+
+
+def coverage_extra(tier, r):
+    return {'hybrid_histories': r.n.get('hybrid_histories', 0), 'hybrid_refused': r.n.get('hybrid_refused', 0)}
+
+
+B = _std.default_bounds()
+B['quick'].append(('alpha', 'sigma11', [ops.mk(1), ops.mk(3, joliet=3, udf=True)], 4, 2))
+B['thorough'].append(('alpha', 'sigma11', [ops.mk(1), ops.mk(3, joliet=3, rr='1.09'), ops.mk(3, joliet=3, udf=True)], 5, 2))
+
+_std.install(globals(), 'C05', 'model_checking', [master.oracle_fixpoint], B,
+             ['virtual clock advanced between generations; only the volume modification dates are masked',
+              'alphabet sigma1 / sigma11 of mc/ops.py, the hybrid histories of mc/props/c12.py:history and the depth bounds listed in the evidence'],
+             extra_tasks=extra_tasks, extra_run=extra_run,
+             alphabets={'sigma11': lambda m: ops.sigma11(m, 'quick')})
